@@ -89,9 +89,72 @@ pub trait HasOptionMarker {}
 #[cfg_attr(feature = "sd", derive(serde::Serialize, serde::Deserialize))]
 pub enum En { A, B(i64), C { x: i64, y: i64 } }
 
-/// wire observations (C14), available when the crate is built with the codec features; a no-op otherwise
-pub trait Wire: StructDiff + Sized { fn wire(_id: &str, _a: &Self, _b: &Self, _x: &Self, _out: &mut String) {} }
+/// wire observations (C14), available when the crate is built with both codec features; a no-op otherwise
+pub trait Wire: StructDiff + Sized {
+    fn wire(_id: &str, _a: &Self, _b: &Self, _x: &Self, _out: &mut String) {}
+    fn wire_decode(_id: &str, _a: &Self, _ns: &[u8], _bc: &[u8], _out: &mut String) {}
+}
+#[cfg(not(all(feature = "ns", feature = "sd")))]
 impl Wire for En {}
+#[cfg(all(feature = "ns", feature = "sd"))]
+impl Wire for En {
+    fn wire(id: &str, a: &Self, b: &Self, x: &Self, out: &mut String) { wire_obs::<Self>(id, a, b, x, out) }
+    fn wire_decode(id: &str, a: &Self, ns: &[u8], bc: &[u8], out: &mut String) { wire_dec::<Self>(id, a, ns, bc, out) }
+}
+pub fn hex(b: &[u8]) -> String { b.iter().map(|x| format!("{:02x}", x)).collect() }
+pub fn unhex(s: &str) -> Vec<u8> { if s == "-" { return vec![]; } (0..s.len() / 2).map(|i| u8::from_str_radix(&s[2 * i..2 * i + 2], 16).unwrap()).collect() }
+
+/// bytes of diff (owned) and diff_ref (borrowed) in both formats; the borrowed bytes decoded as the owned type and applied
+#[cfg(all(feature = "ns", feature = "sd"))]
+pub fn wire_obs<T>(id: &str, a: &T, b: &T, x: &T, out: &mut String)
+where T: StructDiff + Fconv + Clone,
+      T::Diff: nanoserde::SerBin + nanoserde::DeBin + serde::Serialize + serde::de::DeserializeOwned + MaybeDebug + Clone,
+      for<'t> T::DiffRef<'t>: nanoserde::SerBin + serde::Serialize {
+    let r = guard(|| {
+        let d = a.diff(b);
+        let dr = a.diff_ref(b);
+        let nsb = nanoserde::SerBin::serialize_bin(&d);
+        let nsrb = nanoserde::SerBin::serialize_bin(&dr);
+        let bcb = bincode::serialize(&d).unwrap();
+        let bcrb = bincode::serialize(&dr).unwrap();
+        (nsb, nsrb, bcb, bcrb)
+    });
+    match r {
+        None => { writeln!(out, "{} NSB PANIC", id).unwrap(); }
+        Some((nsb, nsrb, bcb, bcrb)) => {
+            for (tag, bytes) in [("NSB", &nsb), ("NSRB", &nsrb), ("BCB", &bcb), ("BCRB", &bcrb)] { writeln!(out, "{} {} {}", id, tag, if bytes.is_empty() { "-".to_string() } else { hex(bytes) }).unwrap(); }
+            // the serialized DiffRef decodes as a Diff and has the same effect (on a and on an equivalent base)
+            let dn: Option<Vec<T::Diff>> = guard(|| nanoserde::DeBin::deserialize_bin(&nsrb).ok()).flatten();
+            let db: Option<Vec<T::Diff>> = guard(|| bincode::deserialize(&bcrb).ok()).flatten();
+            for (tag, dd) in [("N", dn), ("B", db)] {
+                match dd {
+                    None => { writeln!(out, "{} AW{} UNDECODABLE", id, tag).unwrap(); }
+                    Some(dd) => {
+                        line(out, id, &format!("DW{}", tag), Some(show_diff(&dd)));
+                        line(out, id, &format!("AW{}", tag), guard(|| vs(&a.clone().apply(dd.clone()).tv(0))));
+                        line(out, id, &format!("XW{}", tag), guard(|| vs(&x.clone().apply(dd.clone()).tv(0))));
+                    }
+                }
+            }
+        }
+    }
+}
+/// bytes produced by the MODEL, decoded as the owned diff and applied
+#[cfg(all(feature = "ns", feature = "sd"))]
+pub fn wire_dec<T>(id: &str, a: &T, ns: &[u8], bc: &[u8], out: &mut String)
+where T: StructDiff + Fconv + Clone, T::Diff: nanoserde::DeBin + serde::de::DeserializeOwned + MaybeDebug + Clone {
+    let dn: Option<Vec<T::Diff>> = guard(|| nanoserde::DeBin::deserialize_bin(ns).ok()).flatten();
+    let db: Option<Vec<T::Diff>> = guard(|| bincode::deserialize(bc).ok()).flatten();
+    for (tag, dd) in [("N", dn), ("B", db)] {
+        match dd {
+            None => { writeln!(out, "{} DM{} UNDECODABLE", id, tag).unwrap(); }
+            Some(dd) => {
+                line(out, id, &format!("DM{}", tag), Some(show_diff(&dd)));
+                line(out, id, &format!("AM{}", tag), guard(|| vs(&a.clone().apply(dd.clone()).tv(0))));
+            }
+        }
+    }
+}
 impl Fconv for En {
     fn fv(v: &Val, _: u8) -> Self { let z = i64::fv(v, 0); match z.rem_euclid(3) { 0 => En::A, 1 => En::B((z - 1) / 3), _ => En::C { x: (z - 2) / 3, y: (z - 2) / 3 + 1 } } }
     fn tv(&self, _: u8) -> Val { Val::Atom(match self { En::A => 0, En::B(n) => 3 * n + 1, En::C { x, .. } => 3 * x + 2 }) }
@@ -156,6 +219,11 @@ where T: StructDiff + Fconv + Clone + PartialEq + Debug + SetField + Wire, T::Di
             match r { Some(nf) => { f = nf; line(&mut out, id, &format!("H{}", k), Some(vs(&f.tv(0)))); }
                       None => { line(&mut out, id, &format!("H{}", k), None); break; } }
         }
+    } else if kind == "WIRE" {
+        // WIRE id sid A <a> NS <hex> BC <hex>: bytes produced by the model
+        assert_eq!(toks[i], "A"); i += 1; let a = T::fv(&parse_val(toks, &mut i), 0);
+        assert_eq!(toks[i], "NS"); let ns = unhex(toks[i + 1]); assert_eq!(toks[i + 2], "BC"); let bc = unhex(toks[i + 3]);
+        T::wire_decode(id, &a, &ns, &bc, &mut out);
     } else if kind == "SET" {
         // SET id sid X <value> OPS <i> <field value> ...: generated setters; the returned entries replayed on a copy
         assert_eq!(toks[i], "X"); i += 1; let x0 = T::fv(&parse_val(toks, &mut i), 0);
